@@ -5,7 +5,9 @@ CONSTANTS
                 "const_int", "const_string", "not_rust", "not_utf8", "unit_struct", "empty_enum", "generic_map_key",
                 "serialized_as_garbage", "tuple_field", "u64_field", "nested_mod_fn", "unicode_rename", "raw_ident_field",
                 "doc_weird", "array_len_expr", "fn_pointer_field", "impl_trait_alias", "lifetime_generic", "const_generic",
-                "where_clause", "macro_item", "empty_file_marker"}
+                "where_clause", "macro_item", "empty_file_marker",
+                "generic_tree", "generic_enum_two_selfrefs", "mutual_generic_twice", "generic_list", "nonascii_enum_name", "nonascii_struct_name"}
+  Packages = {"given", "none"}
   Langs = {"typescript", "kotlin", "swift", "scala", "go", "python"}
   Modes = {"single", "multi"}
   Companions = {"none", "good", "bad", "good_and_bad"}
